@@ -75,6 +75,8 @@ size_t g_w;               /* ghost witness: index of a differing byte when an eq
 /* ---- encoder monitor M_E (C01 C07 C08 C09 C10 C20) ---- */
 size_t  g_pkt_pos;        /* payload bytes of the current packet already emitted */
 size_t  g_frame_msgs;     /* messages in the current frame */
+size_t  g_used;           /* bytes of the current frame in use ACCORDING TO THE EVENTS (8 at open, +16 per message header, +n per copied slice): independent of the
+                             encoder's own bookkeeping (bytesLeft), which E_INV ties to it */
 uint8_t g_frame_has_seg;  /* current frame holds a segment */
 uint8_t g_seg_state;      /* 0 none, 4 after first, 8 after intermediary */
 uint8_t g_frame_closed;   /* current frame trimmed: nothing may be appended */
@@ -89,8 +91,9 @@ uint8_t g_frame_closed;   /* current frame trimmed: nothing may be appended */
 /* the current frame: open (size max, header + complete messages so far) or closed (trimmed, >= 1 message) */
 #define E_INV      (this->cmpFrames.n > 0 && this->bytesLeft <= E_MAX - 8 && g_frame_msgs <= FRAME_CAP && \
                     (g_frame_msgs == 0 ==> g_frame_has_seg == 0) && (g_frame_has_seg != 0 ==> (g_frame_msgs == 1 && (g_frame_closed != 0 || this->bytesLeft == 0))) && \
-                    (g_frame_closed ? (this->bytesLeft == 0 && g_frame_msgs >= 1 && E_BACK.n >= 8 + 17 && E_BACK.n <= E_MAX && E_BACK.n >= E_MIN) \
-                                    : (E_BACK.n == E_MAX && (g_frame_msgs == 0 ? this->bytesLeft == E_MAX - 8 : 8 + 17 * g_frame_msgs <= E_MAX - this->bytesLeft))))
+                    g_used >= 8 && g_used <= E_MAX && \
+                    (g_frame_closed ? (this->bytesLeft == 0 && g_frame_msgs >= 1 && E_BACK.n >= 8 + 17 && E_BACK.n <= E_MAX && E_BACK.n >= E_MIN && E_BACK.n == (g_used > E_MIN ? g_used : E_MIN)) \
+                                    : (E_BACK.n == E_MAX && E_BACK.n - this->bytesLeft == g_used && (g_frame_msgs == 0 ? this->bytesLeft == E_MAX - 8 : 8 + 17 * g_frame_msgs <= E_MAX - this->bytesLeft))))
 #define PKT_SHAPE(p) (__CPROVER_is_fresh((p), sizeof(*(p))) && __CPROVER_is_fresh((p)->payload, sizeof(*(p)->payload)) && (p)->payload->payloadData.n >= 1 && \
                       (p)->payload->payloadData.n <= 65535 && PRIV(CEX_LIMIT((p)->payload->payloadData.n) && __CPROVER_is_fresh((p)->payload->payloadData.d, CEX_CAP((p)->payload->payloadData.n))))
 #define ENC_BUF    (__CPROVER_is_fresh(E_BACK.d, E_MAX))      /* capacity of the stable frame buffer: at least the configured maximum */
